@@ -257,6 +257,27 @@ PUML_TABLE: dict[str, list[tuple]] = {
           ("cmp", "PUMLEvent.BREAK", "In", "P:self.event_types", "1")], [],
          ""),
     ],
+    "PUMLGraph._order_nodes_from_dfs_successors_dict": [
+        ("a node comes before everything reachable from it", "ret", "", "",
+         ("[P:node]",), [], [], ""),
+        ("each successor's own ordering follows, successors taken in "
+         "reverse DFS-dictionary order", "call", "extend", "[P:node]",
+         ("PUMLGraph._order_nodes_from_dfs_successors_dict(each(enumerate("
+          "reversed(P:dfs_successor_dict[P:node])))[1],P:dfs_successor_dict)",
+          ), [("cmp", "P:node", "In", "P:dfs_successor_dict", "1")], [], ""),
+        ("a branching operator puts its path separator, numbered by the "
+         "position of the branch, in front of every branch that has one",
+         "call", "append", "[P:node]",
+         ("OPERATOR_PATH_FUNCTION_MAP[P:node.operator_type](each(enumerate("
+          "reversed(P:dfs_successor_dict[P:node])))[0])",),
+         [("cmp", "P:node", "In", "P:dfs_successor_dict", "1"),
+          ("truth", "isinstance(P:node,PUMLOperatorNode)", "1"),
+          ("cmp", "P:node.operator_type", "In", "OPERATOR_PATH_FUNCTION_MAP",
+           "1"),
+          ("cmp", "OPERATOR_PATH_FUNCTION_MAP[P:node.operator_type](each("
+           "enumerate(reversed(P:dfs_successor_dict[P:node])))[0])", "Is",
+           "None", "0")], [], ""),
+    ],
     "PUMLGraph.remove_dummy_start_event_nodes": [
         ("every dummy start node leaves the diagram", "call", "remove_node",
          "P:self", ("each(P:self.nodes)",),
